@@ -53,9 +53,16 @@ def r1(ctx, fi):
     # lower bound that is not above them
     ent = [st for t, st in U.stores(fi.node)
            if _s(t) == 'mapping_f2c[CME, FME]']
-    forms = sorted(_s(st.value) for st in ent)
-    ctx.require(forms == ['min([CME_UBND - CME_LBND, FME_UBND - CME_LBND])',
-                          'min([CME_UBND - FME_LBND, FME_UBND - FME_LBND])'],
+    def _minform(v):
+        # min([a, b]) and min(a, b) are one form
+        if isinstance(v, ast.Call) and _s(v.func) in ('min', 'np.min') and \
+                len(v.args) == 1 and isinstance(v.args[0], (ast.List,
+                                                            ast.Tuple)):
+            return 'min(%s)' % ', '.join(_s(e) for e in v.args[0].elts)
+        return _s(v)
+    forms = sorted(_minform(st.value) for st in ent)
+    ctx.require(forms == ['min(CME_UBND - CME_LBND, FME_UBND - CME_LBND)',
+                          'min(CME_UBND - FME_LBND, FME_UBND - FME_LBND)'],
                 'C10.R1', fi, ent[0] if ent else fi.node,
                 'overlap of a region cell with a gap cell must be '
                 'min(upper bounds) - max(lower bound in play): first cell '
@@ -80,7 +87,9 @@ def r1(ctx, fi):
                     key=fi.full + ' | walk advance')
     start = U.assigns_of(fi.node, 'FME')
     s0 = [a for a in start if isinstance(a, ast.Assign)]
-    ctx.require(len(s0) == 1 and _s(s0[0].value) ==
+    ctx.require(len(s0) == 1 and _s(U.expand_locals(
+        fi.node, s0[0].value, before=s0[0].lineno, depth=2,
+        keep=('CME', core, reg))) ==
                 'np.searchsorted(%s, %s[CME]) - 1' % (core, reg), 'C10.R1',
                 fi, s0[0] if s0 else fi.node,
                 'first gap cell = the one containing the region cell lower '
@@ -152,6 +161,16 @@ def r2(ctx, fi):
                   'self.core._asm_sc_xbnds[a])', sm.node, 'stmt')
     s1 = find_all("reg._map['gap2duct'] = map_fine2coarse", sm.node, 'stmt')
     s2 = find_all("reg._map['duct2gap'] = map_coarse2fine", sm.node, 'stmt')
+    if not (s1 and s2):
+        # one dict display instead of two keyed stores
+        for t_, st_ in U.stores(sm.node):
+            if _s(t_) == 'reg._map' and isinstance(st_, ast.Assign) and \
+                    isinstance(st_.value, ast.Dict):
+                kv = {const(k): _s(v) for k, v in zip(st_.value.keys,
+                                                       st_.value.values)}
+                if kv == {'gap2duct': 'map_fine2coarse',
+                          'duct2gap': 'map_coarse2fine'}:
+                    s1 = s2 = [(st_, {})]
     ctx.require(bool(un and s1 and s2), 'C10.R2', sm,
                 un[0][0] if un else sm.node,
                 'caller must store fine->coarse as gap2duct and coarse->fine '
